@@ -12,6 +12,7 @@ func init() {
 			RuleDoc: map[string]string{
 				"R1.bounds": "index/slice/type-assert/panic obligations on the request path",
 				"R1.nil":    "use-before-error-check and json-null pointer obligations on the request path",
+				"R4.codes":  "every code of the delegation arm is a request code that x/crypto's agent server handles (constants read from its source)",
 			},
 		},
 		Run: runC12,
@@ -20,10 +21,10 @@ func init() {
 
 // Reviewed sites that interval facts cannot discharge (shared by every property whose call tree reaches them).
 var commonJust = justTable{
-	"(*shimagent.Server).List$1|index var<[]*ssh/agent.Key>[p0]":   "less function handed to sort.Slice over the same slice variable: sort.Slice only passes indices in [0,len)",
-	"(*shimagent.Server).List$1|index var<[]*ssh/agent.Key>[p1]":   "less function handed to sort.Slice over the same slice variable: sort.Slice only passes indices in [0,len)",
-	"(*shimagent.Server).Signers$1|index var<[]ssh.Signer>[p0]":     "less function handed to sort.Slice over the same slice variable: sort.Slice only passes indices in [0,len)",
-	"(*shimagent.Server).Signers$1|index var<[]ssh.Signer>[p1]":     "less function handed to sort.Slice over the same slice variable: sort.Slice only passes indices in [0,len)",
+	"(*shimagent.Server).List$1|index var<[]*ssh/agent.Key>[p0]":                                                                                 "less function handed to sort.Slice over the same slice variable: sort.Slice only passes indices in [0,len)",
+	"(*shimagent.Server).List$1|index var<[]*ssh/agent.Key>[p1]":                                                                                 "less function handed to sort.Slice over the same slice variable: sort.Slice only passes indices in [0,len)",
+	"(*shimagent.Server).Signers$1|index var<[]ssh.Signer>[p0]":                                                                                  "less function handed to sort.Slice over the same slice variable: sort.Slice only passes indices in [0,len)",
+	"(*shimagent.Server).Signers$1|index var<[]ssh.Signer>[p1]":                                                                                  "less function handed to sort.Slice over the same slice variable: sort.Slice only passes indices in [0,len)",
 	"sshutils/key.CastSSHPublicKeyToCertificate|type assertion call<ssh.ParsePublicKey>(call<(ssh.PublicKey).Marshal>(p0))#0.(*ssh.Certificate)": "reached only when key.Type() contains \"cert\"; for agent.Key the type string is the algorithm name inside the blob, and x/crypto's ParsePublicKey returns *ssh.Certificate for every algorithm name containing \"cert\" that it accepts (others are an error, returned above)",
 }
 
@@ -56,4 +57,5 @@ func runC12(c *Ctx) {
 	c.Floor("R1.bounds", n, 10, "bounds/assertion obligations on the request path")
 	reportSites(c, "R1.nil", w.UseBeforeErrCheck(fns))
 	reportSites(c, "R1.nil", w.JSONNullPointer(fns))
+	tablesC12(c)
 }
